@@ -1,10 +1,10 @@
 #!/bin/bash
 # usage: run_mutations.sh C04 C14 ...  -> tries every patch*.diff of /tmp/mut/M-<P>-out against check <P>
 for P in "$@"; do
-  for D in /tmp/mut/M-$P-out/patch*.diff; do
+  for D in /tmp/mut/${MUTPREFIX:-M}-$P-out/patch*.diff; do
     [ -f "$D" ] || continue
     N=$(basename $D .diff)
-    L=/var/tmp/mutlog/$P-$N.log
+    L=/var/tmp/mutlog/${MUTPREFIX:-M}-$P-$N.log
     [ -s "$L" ] && continue
     /verif/tools/try_mutation.sh $D $P > $L 2>&1
     echo "$P $N: $(grep -c VIOLATION $L) violation line(s)"
